@@ -52,7 +52,42 @@ fn pair_values(r: &mut Rng, sn: usize, dw: u32, count: usize) -> Vec<B> {
             v.push(gen::add1(&p));
         }
     }
+    // sparse digit patterns: a small low digit under upper digits that are all equal (1, MAX, sign bit only, 2^8),
+    // at every digit granularity -- representability tests that fold or combine the upper digits
+    for g in [1usize, 2, 4, 8] {
+        if 3 * g <= sn && (count >= 40 || r.below(2) == 0) {
+            let mut ds: Vec<Vec<u8>> = vec![{ let mut d = vec![0u8; g]; d[0] = 1; d }, vec![0xff; g], { let mut d = vec![0u8; g]; d[g - 1] = 0x80; d }];
+            if g > 1 {
+                let mut d = vec![0u8; g];
+                d[1] = 1;
+                ds.push(d);
+            }
+            for d in ds {
+                for upto in [sn / g, 3.min(sn / g)] {
+                    let mut x = vec![0u8; sn];
+                    x[0] = 5;
+                    for k in 1..upto {
+                        x[k * g..(k + 1) * g].copy_from_slice(&d);
+                    }
+                    v.push(x);
+                }
+            }
+        }
+    }
+    // bounds of the primitive integers inside the source (boundaries of fast paths through primitives):
+    // +-2^k and neighbours for k at the primitive widths; a random half of them in the quick tier
+    for k in [7usize, 8, 15, 16, 31, 32, 63, 64, 127, 128] {
+        if k + 1 < sw && (count >= 40 || r.below(2) == 0) {
+            let p = gen::pow2(sn, k);
+            v.push(p.clone());
+            v.push(gen::sub1(&p));
+            v.push(gen::negate(&p));
+            v.push(gen::sub1(&gen::negate(&p)));
+            v.push(gen::add1(&gen::negate(&p)));
+        }
+    }
     let bnd = gen::boundary(sn);
+    let count = count.max(v.len() + 3);
     while v.len() < count {
         v.push(gen::any(r, sn, &bnd));
     }
@@ -742,11 +777,13 @@ fn main() {
             pair_types!(for_pairs; pair_body);
             for_matrix!(prim_body);
             for_matrix!(per_type);
+            for_giants!(prim_body);
         }
         "C13" => {
             pair_types!(for_pairs; pair_body);
             for_matrix!(prim_body);
             for_matrix!(per_type);
+            for_giants!(prim_body);
         }
         "C15" => {
             for_matrix!(per_type);
